@@ -82,10 +82,11 @@ Proof.
   rewrite (list_eqb_spec _ (pairN_eqb_spec _ streamer_eqb_spec)).
   rewrite !(list_eqb_spec _ frame_eqb_spec).
   rewrite (list_eqb_spec _ (pairN_eqb_spec _ writer_eqb_spec)).
+  rewrite (list_eqb_spec _ (pairN_eqb_spec _ (list_eqb_spec keys_eqb keys_eqb_spec))).
   rewrite (list_eqb_spec _ (pairN_eqb_spec _ ckind_eqb_spec)).
   split.
-  - intros ((((((((((_ & ->) & ->) & ->) & ->) & ->) & ->) & ->) & ->) & ->) & ->). reflexivity.
-  - intros [= -> -> -> -> -> -> -> -> -> ->]. auto 14.
+  - intros (((((((((((_ & ->) & ->) & ->) & ->) & ->) & ->) & ->) & ->) & ->) & ->) & ->). reflexivity.
+  - intros [= -> -> -> -> -> -> -> -> -> -> ->]. auto 16.
 Qed.
 
 Lemma inb_spec st sts : inb st sts = true <-> In st sts.
@@ -109,8 +110,54 @@ Qed.
 Definition smeas1 (x : streamer) : nat := (length (s_pend x) + (if s_conn x then 1 else 0))%nat.
 Definition smeas (ss : list (N * streamer)) : nat := list_sum (map (fun ss => smeas1 ss.2) ss).
 
-Lemma measure_eq st : measure st = (length (st_fifo st) + smeas (st_strs st))%nat.
+Definition bgmeas (bg : list (N * list (list N))) : nat := list_sum (map (fun e => length e.2) bg).
+
+Lemma measure_eq st : measure st = (length (st_fifo st) + 2 * bgmeas (st_bg st) + smeas (st_strs st))%nat.
 Proof. reflexivity. Qed.
+
+(* what one Write can do to the state *)
+Inductive dw_result (st : state) (w : N) (wr : writer) (ks : list N) : state -> Prop :=
+| dw_die : dw_result st w wr ks (close_writer st w)
+| dw_nopush :
+    dw_result st w wr ks
+      (set_writers st (aupdate w (fun x => Writer (w_open x) (w_mode x) (w_chans x) (w_pos x) (w_seq wr + 1))
+                               (st_writers st)))
+| dw_push :
+    streams (w_mode wr) = true -> (length (st_fifo st) <= st_cap st)%nat ->
+    let f := Frame w (w_seq wr + 1) (relayed_keys st w wr ks) ks (unauth_keys st w wr ks) in
+    dw_result st w wr ks
+      (State (st_unowned st) (st_deadinlet st) (st_chans st) (st_cap st)
+             (aupdate w (fun x => Writer (w_open x) (w_mode x) (w_chans x) (w_pos x) (w_seq wr + 1)) (st_writers st))
+             (st_bg st) (st_npos st) (st_fifo st ++ [f]) (st_strs st) (st_closed st) (st_hist st ++ [f])).
+
+Lemma do_write_cases st w wr ks bad st' : In st' (do_write st w wr ks bad) -> dw_result st w wr ks st'.
+Proof.
+  unfold do_write.
+  destruct (bad_hits st wr ks bad || negb (valid_frame st wr ks)); [intros [<-|[]]; constructor|].
+  destruct (streams (w_mode wr) && negb (st_closed st && negb (st_deadinlet st))) eqn:Es;
+    [|intros [<-|[]]; constructor].
+  match goal with |- In _ (if ?c then _ else _) -> _ => destruct c eqn:Eg end; [|intros []].
+  intros [<-|[]]. apply andb_true_iff in Es. destruct Es as [Es _]. simpl.
+  apply dw_push; [exact Es|].
+  destruct (st_closed st); [apply Nat.ltb_lt in Eg; lia|apply Nat.leb_le in Eg; exact Eg].
+Qed.
+
+Lemma dw_result_strs st w wr ks st' : dw_result st w wr ks st' -> st_strs st' = st_strs st /\ st_bg st' = st_bg st.
+Proof. destruct 1; simpl; auto. Qed.
+
+Lemma dw_result_fifo st w wr ks st' :
+  dw_result st w wr ks st' -> (length (st_fifo st') <= S (length (st_fifo st)))%nat.
+Proof. destruct 1; simpl; try lia. rewrite app_length. simpl. lia. Qed.
+
+Lemma aupdate_bgmeas w bg ks rest :
+  alookup w bg = Some (ks :: rest) ->
+  (bgmeas (aupdate w (fun _ => rest) bg) + 1 = bgmeas bg)%nat.
+Proof.
+  induction bg as [|[k y] r IH]; simpl; [congruence|].
+  destruct (w =? k) eqn:E.
+  - intros [= ->]. unfold bgmeas. simpl. lia.
+  - intros H. specialize (IH H). unfold bgmeas in *. simpl. lia.
+Qed.
 
 Lemma deliver_all_smeas f ss ss' : In ss' (deliver_all f ss) -> smeas ss' = smeas ss.
 Proof.
@@ -138,7 +185,8 @@ Qed.
 
 Lemma hsucc_measure st st' : In st' (hsucc st) -> (measure st' < measure st)%nat.
 Proof.
-  unfold hsucc. intros H. apply in_app_or in H. destruct H as [H|H]; [|apply in_app_or in H; destruct H as [H|H]].
+  unfold hsucc. intros H. apply in_app_or in H. destruct H as [H|H]; [|apply in_app_or in H; destruct H as [H|H];
+    [|apply in_app_or in H; destruct H as [H|H]]].
   - unfold deliver_succs in H. destruct (st_closed st); [destruct H|].
     destruct (st_fifo st) as [|f q] eqn:Ef; [destruct H|].
     apply in_map_iff in H. destruct H as (ss & <- & Hss).
@@ -159,6 +207,13 @@ Proof.
     { unfold can_disc in Ea. unfold smeas1, disconnect. simpl.
       destruct (s_conn x); simpl in *; [lia|rewrite andb_false_r in Ea; discriminate]. }
     lia.
+  - unfold bg_succs in H. apply in_flat_map in H. destruct H as ([w kss0] & _ & H). simpl in H.
+    destruct (alookup w (st_bg st)) as [[|ks rest]|] eqn:El; try destruct H.
+    pose proof (aupdate_bgmeas _ _ _ _ El) as Hb.
+    destruct (open_writer_of st w) as [wr|].
+    + apply do_write_cases in H. pose proof (dw_result_strs _ _ _ _ _ H) as [Hs Hg].
+      pose proof (dw_result_fifo _ _ _ _ _ H) as Hf. rewrite !measure_eq, Hs, Hg. simpl in *. lia.
+    + destruct H as [<-|[]]. rewrite !measure_eq. simpl. lia.
 Qed.
 
 Lemma measure_zero_no_succ st : measure st = O -> hsucc st = [].
@@ -301,13 +356,11 @@ Proof.
   destruct o; simpl.
   - destruct (alookup w (st_writers st)); [intros [<-|[]]; constructor|].
     destruct (open_writer_ok st w chans auths); intros [<-|[]]; constructor.
-  - intros [<-|[]]. constructor.
-  - intros [<-|[]]. constructor.
+  - destruct (bg_active st w); intros [<-|[]]; constructor.
+  - destruct (bg_active st w); intros [<-|[]]; constructor.
   - destruct (open_writer_of st w) as [wr|]; [|intros [<-|[]]; constructor].
-    destruct (bad_hits st wr keys bad || negb (valid_frame st wr keys)); [intros [<-|[]]; constructor|].
-    destruct (streams (w_mode wr) && negb (st_closed st && negb (st_deadinlet st))); [|intros [<-|[]]; constructor].
-    match goal with |- In _ (if ?c then _ else _) -> _ => destruct c end; [|intros []].
-    intros [<-|[]]. constructor.
+    destruct (bg_active st w); [intros [<-|[]]; constructor|].
+    intros H. apply do_write_cases in H. apply dw_result_strs in H. destruct H as [-> _]. constructor.
   - destruct (st_closed st); [intros [<-|[]]; constructor|].
     destruct (alookup s (st_strs st)) eqn:E; intros [<-|[]]; [constructor|].
     simpl. apply sc_new. exact E.
@@ -327,11 +380,16 @@ Proof.
       destruct H as [<-|[]]. constructor.
     + destruct (st_fifo st) as [|f q]; [destruct H|].
       apply in_map_iff in H. destruct H as (ss & <- & Hss). simpl. eapply sc_prefix. exact Hss.
+  - destruct (open_writer_of st w); [|intros [<-|[]]; constructor].
+    destruct (bg_active st w); intros [<-|[]]; constructor.
+  - destruct (alookup w (st_bg st)) as [[|? ?]|]; intros H; try destruct H as [<-|[]]; try constructor.
+    destruct H.
 Qed.
 
 Lemma hsucc_strs st st' : In st' (hsucc st) -> strs_change (st_strs st) (st_strs st').
 Proof.
-  unfold hsucc. intros H. apply in_app_or in H. destruct H as [H|H]; [|apply in_app_or in H; destruct H as [H|H]].
+  unfold hsucc. intros H. apply in_app_or in H. destruct H as [H|H]; [|apply in_app_or in H; destruct H as [H|H];
+    [|apply in_app_or in H; destruct H as [H|H]]].
   - unfold deliver_succs in H. destruct (st_closed st); [destruct H|].
     destruct (st_fifo st) as [|f q]; [destruct H|].
     apply in_map_iff in H. destruct H as (ss & <- & Hss). simpl. eapply sc_all. exact Hss.
@@ -343,6 +401,11 @@ Proof.
     destruct (alookup s (st_strs st)) as [x|]; [|destruct H].
     destruct (can_disc st x); [|destruct H]. destruct H as [<-|[]]. simpl. apply sc_upd.
     intros y. reflexivity.
+  - unfold bg_succs in H. apply in_flat_map in H. destruct H as ([w kss0] & _ & H). simpl in H.
+    destruct (alookup w (st_bg st)) as [[|ks rest]|]; try destruct H.
+    destruct (open_writer_of st w) as [wr|].
+    + apply do_write_cases in H. apply dw_result_strs in H. destruct H as [-> _]. simpl. constructor.
+    + destruct H as [<-|[]]. simpl. constructor.
 Qed.
 
 Lemma lstep_strs st l st' : lstep st l st' -> strs_change (st_strs st) (st_strs st').
